@@ -6,24 +6,24 @@ sys.path.insert(0, "/verif")
 TECH = {
  "C01": "abstract interpretation (BytesAI: linear constraints + Fourier-Motzkin + parity) of the validator, the record loop with the segmenter inlined and the label writer; CFG ordering / who-may-write rules",
  "C02": "abstract interpretation with inductive loop invariants (Houdini over templates) + exact unrolling for witnesses; effect and ordering rules",
- "C03": "reaching definitions (byte-order normalisation), CFG dominance (channel-order guard), table cross-check vs RP66, abstract interpretation (UVARI, chunk tiling)",
+ "C03": "value-flow normal form (E6: inlined def-use summaries) of the chunk-dtype plan and of the row serialiser (byte-order normalisation, one copying swap per slot, field order from the channel mapping), CFG dominance of the channel-order guard, table cross-check vs RP66, abstract interpretation (UVARI, chunk tiling)",
  "C04": "abstract interpretation of the component writers over an exhaustive finite space of value shapes; attribute declaration table checks",
- "C05": "table extraction and cross-checking (add_* forwarding, labels, set types vs RP66), effect inventory of write-time stores, abstract interpretation of the primitive emitters",
+ "C05": "table extraction and cross-checking (add_* forwarding, labels, set types vs RP66); value-flow normal form of set_attributes / converters / setters (inlined, helper-insensitive); semantic write-path store inventory with path conditions (defaults only where unset); abstract interpretation of the primitive emitters",
  "C06": "abstract interpretation of every primitive emitter over its whole value domain; struct format table vs RP66 Appendix B; call-site enumeration",
- "C07": "AST / effect rules (copy number predicate, append-only lists, memo invalidation), CFG must-pass-through of the generic reference membership check, sibling comparison of 21 add_* sites",
- "C08": "reaching definitions (per-field dtype selection), effect rules (single writer of the representation code), CFG dominance (set-up from data), table cross-check",
- "C09": "abstract interpretation of the record generator (generators inlined) on a symbolic two-logical-file storage unit; CFG rules on the registry and the defining-origin checks",
+ "C07": "value-flow normal form with inlining, generator fusion and closure substitution: the reference-membership walk found semantically in check_objects, origin forwarding / numbering / back-fill read off inlined summaries of the 21 add_* sites; effect rules (copy number predicate, append-only lists, memo invalidation)",
+ "C08": "value-flow normal form of the chunk-dtype plan (per-field dtype selection), the channel set-up from data (dimension rule, conflicts raise) and the row serialiser; effect rules (single writer of the representation code); call-graph who-may-call; table cross-check",
+ "C09": "abstract interpretation of the record generator (generators inlined) on a symbolic two-logical-file storage unit; value-flow summaries of the registry (no overwrite), of the frame-data list construction and of the defining origin",
  "C10": "abstract interpretation of the output buffer, byte writer, chunk validator and chunk generator for all sizes (monomials + monotonicity lemmas for the tiling); def-use of the chunk parameters",
- "C11": "sibling agreement of load_chunk implementations via reaching definitions; chunk-window arithmetic by abstract interpretation; dispatch and mapping rules",
- "C12": "guard inventory: CFG dominance of each rejection, closed table of non-re-raising exception handlers, shared emitter / byte-order obligations",
- "C13": "def-use and AST shape rules on the frame index set-up (windowed accessor, min/max, row count, widening before diff, relative tolerance); effect inventory for persistence",
- "C14": "closed state inventory: memo/cache detection, write-path effect summary of persistent stores, nondeterminism sources, module/class-level containers, mode-flag CFG discipline",
+ "C11": "value-flow normal form: sibling agreement of load_chunk implementations on window-aware row addressing (helper expanded), dispatch totality, mapping-driven field filling, merge of inline and write-time data; chunk-window arithmetic by abstract interpretation",
+ "C12": "guard inventory over inlined value-flow summaries (each rejection: a raise under exactly its condition, on the write path before generation), closed table of non-re-raising exception handlers, shared emitter / byte-order obligations",
+ "C13": "semantic write-path store inventory (object.field written, value and path condition rewritten into the frame's terms through helpers) for INDEX-MIN/MAX/SPACING/DIRECTION; inlined summary of the spacing helper (widening before diff, relative tolerance, direction sense); provenance fixpoint for persistence",
+ "C14": "closed state inventory: memo/cache detection, package-wide provenance fixpoint (which stored values derive from write() arguments / from nondeterminism sources) over value-flow summaries, module/class-level containers, mode-flag CFG discipline",
  "C15": "raise reachability by abstract interpretation for all body lengths and all accepted record lengths, with concrete (S, vrl) witnesses; validator set comparison",
  "C16": "abstract interpretation of the no-format body builder for three payload kinds; append-only / yield-order effect rules; padding obligations of the segment builder",
- "C17": "CFG path rules (save / set / restore on every normal and exceptional exit) for every writer of the mode flag, def-use of flag readers with three-valued branch evaluation, regex AST of the name pattern",
- "C18": "abstract interpretation of the record generator; who-may-use rules for the shared registry; CFG must-pass-through of the ownership guard at 21 sibling sites",
+ "C17": "CFG path rules (save / set / restore on every normal and exceptional exit) for every writer of the mode flag; flag readers classified on value-flow summaries with three-valued evaluation of path conditions; inlined frame set-up (restriction not bypassable); regex AST of the name pattern",
+ "C18": "abstract interpretation of the record generator; who-may-use rules for the shared registry; inlined value-flow summaries of the registry entry points (ownership guard before registration, owner recorded) and of the 21 add_* sites",
  "C19": "interprocedural may-alias taint analysis of caller-owned data (parameters, returns, generators, instance fields) against an enumerated set of in-place sinks, with an always-on positive control",
- "C20": "CFG ordering rules (publish last) on 22 constructors and 21 add_* methods; effect reachability before publication; setter atomicity; write-path effect inventory",
+ "C20": "CFG ordering rules (publish last) on 22 constructors and 21 add_* methods; effect reachability before publication; setter atomicity; semantic write-path store inventory with provenance",
 }
 NOTE = {
  "proof": "Trusted: Python semantics of the modelled subset, struct sizes/ranges, the transfer functions and decision procedure in sa/absint.py + sa/linarith.py (tested both ways by sa/selftest.py), RP66 V1 reference tables in sa/rp66_ref.py. Little-endian host assumed by the package (stated, not checked).",
@@ -52,9 +52,9 @@ man = {
            "baseline_off_cmd": "cd /repo && /venv/bin/python -m pytest -q -p no:cacheprovider --timeout=900",
            "source_commits": [], "add_only": True},
  "engines": [{"name": "sa", "path": "/verif/sa", "serves_properties": [p["id"] for p in props],
-              "kind_free_text": "repository-specific static analysis on Python ast: program index + call graph (E1), statement CFG with exceptional edges (E2), relational abstract interpreter for byte-length arithmetic with its own Fourier-Motzkin decision procedure (E3), table extraction vs RP66 reference tables (E4), effect / memo / taint analyses (E5). Nothing in /repo is imported or executed."}],
+              "kind_free_text": "repository-specific static analysis on Python ast: program index + call graph (E1), statement CFG with exceptional edges (E2), relational abstract interpreter for byte-length arithmetic with its own Fourier-Motzkin decision procedure (E3), table extraction vs RP66 reference tables (E4), effect / memo / taint analyses (E5), value-flow normal form: per-function def-use summaries with inlining, generator fusion and a provenance fixpoint (E6). Nothing in /repo is imported or executed."}],
  "checks": checks,
- "notes": "Exit 0 = all obligations discharged (listed known findings are printed as KNOWN-FINDING); exit 1 + VIOLATION line = a rule instance refuted on a named construct; exit 2 + ANALYSIS-ERROR = analysis could not be carried out. thorough = quick + two-way self-validation of the rules (seeded breaks must fire, behaviour-preserving twins must stay silent) on scratch copies. Known findings: /verif/known_findings.json.",
+ "notes": "Exit 0 = all obligations discharged (listed known findings are printed as KNOWN-FINDING); exit 1 + VIOLATION line = a rule instance refuted on a named construct; exit 2 + ANALYSIS-ERROR = analysis could not be carried out. thorough = quick + two-way self-validation of the rules on scratch copies: seeded breaks (hand-written variants, the 60 sub-agent changes under /verif/seeded, the reversals of the repaired defects) must fire, behaviour-preserving twins (hand-written and the sub-agent refactoring corpus under /verif/seeded/_refactors*) must stay silent. Known findings: /verif/known_findings.json.",
  "not_applicable": [],
 }
 json.dump(man, open("/verif/MANIFEST.json", "w"), indent=1)
